@@ -32,6 +32,10 @@ func relAllGates(w *sys.World) {
 		w.Step(sys.Stim{K: "relm", T: t})
 		w.Step(sys.Stim{K: "point", T: t})
 	}
+	if hasPoint(w.Cfg, "manager.stream.ctx") {
+		w.Step(sys.Stim{K: "point", T: "ms_cli"})
+		w.Step(sys.Stim{K: "point", T: "ms_srv"})
+	}
 }
 
 // freshStream ends what is there and opens a streaming RPC; it returns the rpc index (0 on failure).
@@ -187,6 +191,34 @@ var scenarios = []scenario{
 			w.Step(sys.Stim{K: "point", T: b}) // B goes on: marshals, starts writing
 			w.Step(sys.Stim{K: "point", T: a}) // A resumes on its dead stream
 			w.Flow(30, hDefault)
+		}},
+	{ // second-round C12c: the manager notices the cancel at the moment the stream completes by itself; a next call follows
+		name: "cancel-races-completion", ok: func(c sys.Config) bool { return hasPoint(c, "manager.stream.ctx") },
+		run: func(w *sys.World, rng *rand.Rand) {
+			r := freshStream(w, "none", rng.Intn(2) == 0)
+			if r == 0 {
+				return
+			}
+			w.Step(sys.Stim{K: "cancel", R: r}) // manageStream has chosen the ctx.Done arm and is parked there
+			if w.Last().Lib["ms_cli"] != "pt" {
+				return
+			}
+			if t := w.FreeThread(); t != "" {
+				w.Step(sys.Stim{K: "op", T: t, Op: "Close", R: r}) // the stream finishes by itself
+			}
+			w.Flow(20, nil)
+			w.Step(sys.Stim{K: "point", T: "ms_cli"}) // Cancel finds the stream finished
+			w.Flow(20, hDefault)
+			if t := w.FreeThread(); t != "" && w.NRPC() < sys.MaxRPC-1 {
+				if w.Step(sys.Stim{K: "start", T: t, Op: "NewStream", Md: "none"}) {
+					r2 := w.NRPC()
+					w.Flow(10, nil)
+					if rt := w.FreeThread(); rt != "" && w.HasStream(r2) && rng.Intn(2) == 0 {
+						w.Step(sys.Stim{K: "op", T: rt, Op: "Recv", R: r2})
+						w.Flow(10, nil)
+					}
+				}
+			}
 		}},
 	{ // an undecodable message: the receiver gets the decoder's error, the stream lives on
 		name: "undecodable-message", ok: func(c sys.Config) bool { return true },
